@@ -53,12 +53,21 @@ var vfC11Kind = &filters.Kind{
 	CreateInstance: func(spec filters.Spec) filters.Filter { return &vfC11Filter{spec: spec.(*vfC11Spec)} },
 }
 
-func (f *vfC11Filter) Name() string       { return f.spec.Name() }
+func (f *vfC11Filter) Name() string        { return f.spec.Name() }
 func (f *vfC11Filter) Kind() *filters.Kind { return vfC11Kind }
 func (f *vfC11Filter) Spec() filters.Spec  { return f.spec }
 func (f *vfC11Filter) Init()               { vfC11Log("init %s/%s tag=%s", f.spec.Pipeline(), f.Name(), f.spec.Tag) }
+
+// vfC11DuringInherit, when set, is called from inside a filter's Inherit, i.e. while the traffic
+// controller is in the middle of an update: the harness uses it to resolve and call the handler of
+// the object being updated (and of others) exactly at that point of the schedule.
+var vfC11DuringInherit func(pipeline string)
+
 func (f *vfC11Filter) Inherit(prev filters.Filter) {
 	vfC11Log("inherit %s/%s tag=%s from=%s", f.spec.Pipeline(), f.Name(), f.spec.Tag, prev.(*vfC11Filter).spec.Tag)
+	if h := vfC11DuringInherit; h != nil {
+		h(f.spec.Pipeline())
+	}
 }
 func (f *vfC11Filter) Status() interface{} { return nil }
 func (f *vfC11Filter) Close() {
@@ -269,6 +278,38 @@ func TestVerifC11Controller(t *testing.T) {
 				}
 				var opErr error
 				var ret *supervisor.ObjectEntity
+				// a request that resolves its backend while the update is in progress (the namespace
+				// is read lock-free by HTTPServers) must get the old or the new generation, complete
+				var midUpdate []string
+				vfC11DuringInherit = nil
+				if k.kind == "pipeline" && live {
+					tc.mutex.Lock()
+					space := tc.namespaces[k.ns]
+					tc.mutex.Unlock()
+					vfC11DuringInherit = func(pl string) {
+						if space == nil || pl != k.name {
+							return
+						}
+						h, ok := space.GetHandler(k.name)
+						if !ok {
+							midUpdate = append(midUpdate, "unresolvable")
+							return
+						}
+						ctx := context.New(nil)
+						req, _ := httpprot.NewRequest(nil)
+						ctx.SetInputRequest(req)
+						got := "no-response"
+						if p, txt, _ := vfRecover(func() {
+							h.Handle(ctx)
+							if r, ok := ctx.GetOutputResponse().(*httpprot.Response); ok && r != nil {
+								got = r.HTTPHeader().Get("X-Vf-Tag")
+							}
+						}); p {
+							got = "panic: " + txt
+						}
+						midUpdate = append(midUpdate, got)
+					}
+				}
 				if p, txt, site := vfRecover(func() {
 					switch {
 					case op == "create" && k.kind == "pipeline":
@@ -292,6 +333,15 @@ func TestVerifC11Controller(t *testing.T) {
 					ok = false
 					fail("controller-op-panics site="+site, "%s panicked: %s", op, txt)
 					return
+				}
+				vfC11DuringInherit = nil
+				for _, got := range midUpdate {
+					vf.Class("request-during-update")
+					if got != k.name+":"+cur && got != k.name+":"+tag {
+						ok = false
+						fail("request-during-update-not-served-by-old-or-new-generation", "while %s of %v (tag %s -> %s) was in progress a request resolved through the namespace got %q", op, k, cur, tag, got)
+						return
+					}
 				}
 				ev := take()
 				if others(k) {
